@@ -7,16 +7,18 @@ use std::panic::{catch_unwind, AssertUnwindSafe};
 
 use crate::app::file;
 use crate::app::format::write::HeaderWriter;
-use crate::app::{ControlField, Iin, RequestHeader};
 use crate::app::measurement::DoubleBit;
 use crate::app::parse::free_format::FreeFormatVariation;
 use crate::app::parse::options::ParseOptions;
 use crate::app::parse::parser::{HeaderDetails, ObjectHeader, ParsedFragment};
 use crate::app::parse::prefix::Prefix;
 use crate::app::parse::traits::{FixedSize, FixedSizeVariation, Index};
-use crate::app::{HeaderParseError, ObjectParseError, RequestValidationError, ResponseValidationError};
 use crate::app::variations::*;
+use crate::app::{ControlField, Iin, RequestHeader};
 use crate::app::{FunctionCode, QualifierCode};
+use crate::app::{
+    HeaderParseError, ObjectParseError, RequestValidationError, ResponseValidationError,
+};
 use crate::decode::AppDecodeLevel;
 use crate::master::{CommandBuilder, CommandSupport, ReadHeader, ReadRequest};
 
@@ -37,7 +39,14 @@ pub(crate) struct Sink {
 
 impl Sink {
     pub(crate) fn new() -> Self {
-        Sink { n: 0, first: None, last: None, hash: 0xcbf29ce484222325, implied_len: 0, size_mismatch: false }
+        Sink {
+            n: 0,
+            first: None,
+            last: None,
+            hash: 0xcbf29ce484222325,
+            implied_len: 0,
+            size_mismatch: false,
+        }
     }
     fn eat(&mut self, b: &[u8]) {
         for x in b {
@@ -82,7 +91,10 @@ impl Sink {
             self.item(None, false, &b);
         }
     }
-    pub(crate) fn prefixed<I: Index, V: FixedSizeVariation>(&mut self, it: impl Iterator<Item = Prefix<I, V>>) {
+    pub(crate) fn prefixed<I: Index, V: FixedSizeVariation>(
+        &mut self,
+        it: impl Iterator<Item = Prefix<I, V>>,
+    ) {
         for x in it {
             let b = self.written(&x);
             self.implied_len += <Prefix<I, V> as FixedSize>::SIZE as usize;
@@ -148,7 +160,9 @@ fn obj_err(e: &ObjectParseError) -> String {
             let (g, var) = v.to_group_and_var();
             format!("invalidqualifier {g} {var} {}", q.as_u8())
         }
-        ObjectParseError::UnsupportedQualifierCode(q) => format!("unsupportedqualifier {}", q.as_u8()),
+        ObjectParseError::UnsupportedQualifierCode(q) => {
+            format!("unsupportedqualifier {}", q.as_u8())
+        }
         ObjectParseError::UnsupportedFreeFormatCount(n) => format!("freeformatcount {n}"),
         ObjectParseError::ZeroLengthOctetData => "zerolength".to_string(),
         ObjectParseError::BadAttribute(a) => format!("badattr {}", attr_err(a)),
@@ -192,8 +206,15 @@ fn header_lines(h: &ObjectHeader, out: &mut Vec<String>) {
         && !matches!(h.details, HeaderDetails::AllObjects(_))
         && !matches!(
             h.details,
-            HeaderDetails::OneByteStartStop(_, _, crate::app::gen::ranged::RangedVariation::Group0(_, None))
-                | HeaderDetails::TwoByteStartStop(_, _, crate::app::gen::ranged::RangedVariation::Group0(_, None))
+            HeaderDetails::OneByteStartStop(
+                _,
+                _,
+                crate::app::gen::ranged::RangedVariation::Group0(_, None)
+            ) | HeaderDetails::TwoByteStartStop(
+                _,
+                _,
+                crate::app::gen::ranged::RangedVariation::Group0(_, None)
+            )
         );
     // iterate through the real lazy iterators; a panic in there is an output, not a crash
     let res = catch_unwind(AssertUnwindSafe(|| match &h.details {
@@ -215,13 +236,21 @@ fn header_lines(h: &ObjectHeader, out: &mut Vec<String>) {
         Ok(true) => {
             paylen = Some(sink.implied_len);
             let f = |x: Option<u32>| x.map(|i| i.to_string()).unwrap_or_else(|| "-".to_string());
-            format!("objs {} {} {} {:016x}", sink.n, f(sink.first), f(sink.last), sink.hash)
+            format!(
+                "objs {} {} {} {:016x}",
+                sink.n,
+                f(sink.first),
+                f(sink.last),
+                sink.hash
+            )
         }
     };
     let pl = if objs == "objs panic" {
         "!".to_string()
     } else {
-        paylen.map(|x| x.to_string()).unwrap_or_else(|| "?".to_string())
+        paylen
+            .map(|x| x.to_string())
+            .unwrap_or_else(|| "?".to_string())
     };
     out.push(format!("hdr {g} {v} {q} {spec} {pl}"));
     out.push(objs);
@@ -233,7 +262,9 @@ fn header_lines(h: &ObjectHeader, out: &mut Vec<String>) {
 /// the canonical dump of one fragment (see harness/src/eng_parse.rs for the line format)
 pub fn parse_dump(resp: bool, zero_len_strings: bool, bytes: &[u8]) -> Vec<String> {
     let mut out = Vec::new();
-    let options = ParseOptions { parse_zero_length_strings: zero_len_strings };
+    let options = ParseOptions {
+        parse_zero_length_strings: zero_len_strings,
+    };
     let frag = match catch_unwind(AssertUnwindSafe(|| ParsedFragment::parse(options, bytes))) {
         Err(_) => {
             out.push("panic".to_string());
@@ -256,20 +287,37 @@ pub fn parse_dump(resp: bool, zero_len_strings: bool, bytes: &[u8]) -> Vec<Strin
     };
     out.push(format!(
         "app {} {} {} {} {} {} {} {}",
-        c.to_u8(), c.fir as u8, c.fin as u8, c.con as u8, c.uns as u8, c.seq.value(), frag.function.as_u8(), iin
+        c.to_u8(),
+        c.fir as u8,
+        c.fin as u8,
+        c.con as u8,
+        c.uns as u8,
+        c.seq.value(),
+        frag.function.as_u8(),
+        iin
     ));
     if resp {
         out.push(match frag.to_response() {
             Ok(_) => "valid ok".to_string(),
-            Err(ResponseValidationError::UnexpectedFunction(_)) => "valid unexpectedfunction".to_string(),
-            Err(ResponseValidationError::SolicitedResponseWithUnsBit) => "valid solicitedwithuns".to_string(),
-            Err(ResponseValidationError::UnsolicitedResponseWithoutUnsBit) => "valid unsolicitedwithoutuns".to_string(),
-            Err(ResponseValidationError::UnsolicitedResponseWithoutFirAndFin) => "valid unsolicitedwithoutfirfin".to_string(),
+            Err(ResponseValidationError::UnexpectedFunction(_)) => {
+                "valid unexpectedfunction".to_string()
+            }
+            Err(ResponseValidationError::SolicitedResponseWithUnsBit) => {
+                "valid solicitedwithuns".to_string()
+            }
+            Err(ResponseValidationError::UnsolicitedResponseWithoutUnsBit) => {
+                "valid unsolicitedwithoutuns".to_string()
+            }
+            Err(ResponseValidationError::UnsolicitedResponseWithoutFirAndFin) => {
+                "valid unsolicitedwithoutfirfin".to_string()
+            }
         });
     } else {
         out.push(match frag.to_request() {
             Ok(_) => "valid ok".to_string(),
-            Err(RequestValidationError::UnexpectedFunction(_)) => "valid unexpectedfunction".to_string(),
+            Err(RequestValidationError::UnexpectedFunction(_)) => {
+                "valid unexpectedfunction".to_string()
+            }
             Err(RequestValidationError::NonFirFin) => "valid nonfirfin".to_string(),
             Err(RequestValidationError::UnexpectedUnsBit(_)) => "valid unexpecteduns".to_string(),
         });
@@ -283,11 +331,25 @@ pub fn parse_dump(resp: bool, zero_len_strings: bool, bytes: &[u8]) -> Vec<Strin
         }
     }
     // Display at full decode level: only panic / no panic is observed
-    let shown = catch_unwind(AssertUnwindSafe(|| format!("{}", frag.display(AppDecodeLevel::ObjectValues)).len()));
-    out.push(if shown.is_ok() { "display ok".to_string() } else { "display panic".to_string() });
+    let shown = catch_unwind(AssertUnwindSafe(|| {
+        format!("{}", frag.display(AppDecodeLevel::ObjectValues)).len()
+    }));
+    out.push(if shown.is_ok() {
+        "display ok".to_string()
+    } else {
+        "display panic".to_string()
+    });
     // the other decode levels must not panic either (not modelled separately: they format less)
-    for level in [AppDecodeLevel::Nothing, AppDecodeLevel::Header, AppDecodeLevel::ObjectHeaders] {
-        if catch_unwind(AssertUnwindSafe(|| format!("{}", frag.display(level)).len())).is_err() {
+    for level in [
+        AppDecodeLevel::Nothing,
+        AppDecodeLevel::Header,
+        AppDecodeLevel::ObjectHeaders,
+    ] {
+        if catch_unwind(AssertUnwindSafe(|| {
+            format!("{}", frag.display(level)).len()
+        }))
+        .is_err()
+        {
             out.push("display-lower-level panic".to_string());
         }
     }
@@ -315,7 +377,11 @@ pub enum BuildHdr {
 fn read_fixed<T: FixedSize>(b: &[u8]) -> Option<T> {
     let mut c = scursor::ReadCursor::new(b);
     let x = T::read(&mut c).ok()?;
-    if c.is_empty() { Some(x) } else { None }
+    if c.is_empty() {
+        Some(x)
+    } else {
+        None
+    }
 }
 
 fn add_cmds<T>(builder: &mut CommandBuilder, wide: bool, items: &[(u16, Vec<u8>)]) -> bool
@@ -343,51 +409,58 @@ pub fn build_request(ctrl: u8, func: u8, cap: usize, hdrs: &[BuildHdr]) -> Resul
     let function = FunctionCode::from(func).ok_or("badspec")?;
     let mut buf = vec![0u8; cap];
     let mut cursor = scursor::WriteCursor::new(&mut buf);
-    let mut writer = crate::app::format::write::start_request(ControlField::from(ctrl), function, &mut cursor).map_err(|_| "badwrite")?;
+    let mut writer =
+        crate::app::format::write::start_request(ControlField::from(ctrl), function, &mut cursor)
+            .map_err(|_| "badwrite")?;
     for h in hdrs {
-        let res: Result<(), scursor::WriteError> = match h {
-            BuildHdr::All(g, v) => {
-                let var = Variation::lookup(*g, *v).ok_or("badspec")?;
-                ReadRequest::all_objects(var).format(&mut writer)
-            }
-            BuildHdr::Range8(g, v, s, e) => {
-                let var = Variation::lookup(*g, *v).ok_or("badspec")?;
-                ReadRequest::one_byte_range(var, *s, *e).format(&mut writer)
-            }
-            BuildHdr::Range16(g, v, s, e) => {
-                let var = Variation::lookup(*g, *v).ok_or("badspec")?;
-                ReadRequest::two_byte_range(var, *s, *e).format(&mut writer)
-            }
-            BuildHdr::Count8(g, v, n) => {
-                let var = Variation::lookup(*g, *v).ok_or("badspec")?;
-                ReadRequest::multiple_headers(&[ReadHeader::one_byte_limited_count(var, *n)]).format(&mut writer)
-            }
-            BuildHdr::Count16(g, v, n) => {
-                let var = Variation::lookup(*g, *v).ok_or("badspec")?;
-                ReadRequest::multiple_headers(&[ReadHeader::two_byte_limited_count(var, *n)]).format(&mut writer)
-            }
-            BuildHdr::ClearRestart => writer.write_clear_restart(),
-            BuildHdr::Commands(g, v, wide, items) => {
-                let mut b = CommandBuilder::new();
-                let ok = match (*g, *v) {
-                    (12, 1) => add_cmds::<Group12Var1>(&mut b, *wide, items),
-                    (41, 1) => add_cmds::<Group41Var1>(&mut b, *wide, items),
-                    (41, 2) => add_cmds::<Group41Var2>(&mut b, *wide, items),
-                    (41, 3) => add_cmds::<Group41Var3>(&mut b, *wide, items),
-                    (41, 4) => add_cmds::<Group41Var4>(&mut b, *wide, items),
-                    _ => false,
-                };
-                if !ok {
-                    return Err("badspec".to_string());
+        let res: Result<(), scursor::WriteError> =
+            match h {
+                BuildHdr::All(g, v) => {
+                    let var = Variation::lookup(*g, *v).ok_or("badspec")?;
+                    ReadRequest::all_objects(var).format(&mut writer)
                 }
-                b.build().write(&mut writer)
-            }
-            BuildHdr::TimeOne(g, v, bytes) => match (*g, *v) {
-                (50, 1) => writer.write_count_of_one(read_fixed::<Group50Var1>(bytes).ok_or("badspec")?),
-                (50, 3) => writer.write_count_of_one(read_fixed::<Group50Var3>(bytes).ok_or("badspec")?),
-                _ => return Err("badspec".to_string()),
-            },
-        };
+                BuildHdr::Range8(g, v, s, e) => {
+                    let var = Variation::lookup(*g, *v).ok_or("badspec")?;
+                    ReadRequest::one_byte_range(var, *s, *e).format(&mut writer)
+                }
+                BuildHdr::Range16(g, v, s, e) => {
+                    let var = Variation::lookup(*g, *v).ok_or("badspec")?;
+                    ReadRequest::two_byte_range(var, *s, *e).format(&mut writer)
+                }
+                BuildHdr::Count8(g, v, n) => {
+                    let var = Variation::lookup(*g, *v).ok_or("badspec")?;
+                    ReadRequest::multiple_headers(&[ReadHeader::one_byte_limited_count(var, *n)])
+                        .format(&mut writer)
+                }
+                BuildHdr::Count16(g, v, n) => {
+                    let var = Variation::lookup(*g, *v).ok_or("badspec")?;
+                    ReadRequest::multiple_headers(&[ReadHeader::two_byte_limited_count(var, *n)])
+                        .format(&mut writer)
+                }
+                BuildHdr::ClearRestart => writer.write_clear_restart(),
+                BuildHdr::Commands(g, v, wide, items) => {
+                    let mut b = CommandBuilder::new();
+                    let ok = match (*g, *v) {
+                        (12, 1) => add_cmds::<Group12Var1>(&mut b, *wide, items),
+                        (41, 1) => add_cmds::<Group41Var1>(&mut b, *wide, items),
+                        (41, 2) => add_cmds::<Group41Var2>(&mut b, *wide, items),
+                        (41, 3) => add_cmds::<Group41Var3>(&mut b, *wide, items),
+                        (41, 4) => add_cmds::<Group41Var4>(&mut b, *wide, items),
+                        _ => false,
+                    };
+                    if !ok {
+                        return Err("badspec".to_string());
+                    }
+                    b.build().write(&mut writer)
+                }
+                BuildHdr::TimeOne(g, v, bytes) => match (*g, *v) {
+                    (50, 1) => writer
+                        .write_count_of_one(read_fixed::<Group50Var1>(bytes).ok_or("badspec")?),
+                    (50, 3) => writer
+                        .write_count_of_one(read_fixed::<Group50Var3>(bytes).ok_or("badspec")?),
+                    _ => return Err("badspec".to_string()),
+                },
+            };
         if res.is_err() {
             return Err("badwrite".to_string());
         }
@@ -402,14 +475,24 @@ pub fn write_app_header(ctrl: u8, func: u8, iin: Option<(u8, u8)>) -> Option<Vec
     let mut cursor = scursor::WriteCursor::new(&mut buf);
     let c = ControlField::from(ctrl);
     match iin {
-        None => RequestHeader::new(c, FunctionCode::from(func)?).write(&mut cursor).ok()?,
+        None => RequestHeader::new(c, FunctionCode::from(func)?)
+            .write(&mut cursor)
+            .ok()?,
         Some((a, b)) => {
             let f = match FunctionCode::from(func)? {
                 FunctionCode::Response => crate::app::ResponseFunction::Response,
-                FunctionCode::UnsolicitedResponse => crate::app::ResponseFunction::UnsolicitedResponse,
+                FunctionCode::UnsolicitedResponse => {
+                    crate::app::ResponseFunction::UnsolicitedResponse
+                }
                 _ => return None,
             };
-            crate::app::ResponseHeader::new(c, f, Iin::new(crate::app::Iin1::new(a), crate::app::Iin2::new(b))).write(&mut cursor).ok()?
+            crate::app::ResponseHeader::new(
+                c,
+                f,
+                Iin::new(crate::app::Iin1::new(a), crate::app::Iin2::new(b)),
+            )
+            .write(&mut cursor)
+            .ok()?
         }
     }
     Some(cursor.written().to_vec())
